@@ -52,12 +52,18 @@ def sibling(draw, m, names=("x", "y", "z")):
         if t in M.PARAM_N:
             new = draw(st.sampled_from([n for n in (1, 2, 3, 4, 5, 6, 7, 8, 9, 12, 13) if n != int(x[2])]))
         else:
-            opts = [b for b in (math.e, 2, 10, 3, 0.5, 0.1, 4, 2.5, 2.0000000000000004, 1.9999999999999998) if b != x[2]]
+            cur = float(x[2])
+            near = [math.nextafter(cur, math.inf), math.nextafter(cur, 0.0), cur * (1 + 1e-10), cur * (1 - 1e-12),
+                    float(f"{cur:.10g}"), float(f"{cur:.15g}")]
+            opts = [b for b in [math.e, 2, 10, 3, 0.5, 0.1, 4, 2.5] + near
+                    if b != x[2] and b > 0 and not (t == "Logarithm" and b == 1)]
             new = draw(st.sampled_from(opts))
         y = (t, x[1], new)
     elif kind == "leaf":
         if t == "Constant":
-            new = draw(st.sampled_from([v for v in (0, 1, -1, 2, 0.5, 3, -2, 1e-9, x[1] + 1 if isinstance(x[1], (int, float)) else 7) if v != x[1]]))
+            cur = float(x[1]) if isinstance(x[1], (int, float)) and abs(x[1]) < 1e300 else 7.0
+            near = [math.nextafter(cur, math.inf), math.nextafter(cur, -math.inf), float(f"{cur:.15g}"), float(f"{cur:.12g}"), -cur]
+            new = draw(st.sampled_from([v for v in [0, 1, -1, 2, 0.5, 3, -2, 1e-9, cur + 1] + near if v != x[1]]))
             y = ("Constant", new) if draw(st.integers(0, 3)) else ("Variable", names[0])
         else:
             others = [n for n in list(names) + ["xx", "X", "x_"] if n != x[1]]
